@@ -351,11 +351,34 @@ def replay(payload):
             if sol.objective_value is not None and not K.close(sol.objective_value, float(oref), 1e-7, 1e-9):
                 return True, f"objective_value {sol.objective_value} vs objective(values) {float(oref)}"
             continue
-        # instance: compare on random points
-        for _ in range(40):
+        # instance: compare on points drawn inside / around the declared boxes
+        from vf.engine.recipes import Ref
+        rd = Ref({n_: 1.0 for n_ in allv}, diff=0)
+        rd.S(model["obj"])
+        for _k, l_, r_ in model["cons"]:
+            rd.S(l_)
+            rd.S(r_)
+        mentioned = [n for n in names["vars"] if n in rd.read or n in cols]
+        boxes = {n: LM.declared_bounds(model, n, val) for n in mentioned}
+        if attempt > 0 and any(lb is not None and ub is not None and lb > ub for lb, ub in boxes.values()):
+            continue
+        for _ in range(60):
             pt = dict(val)
             for n in names["vars"]:
-                pt[n] = vals.get(n, 0.0) if (_ == 0 and attempt == 0) else rng.uniform(-2, 2)
+                if _ == 0 and attempt == 0:
+                    pt[n] = vals.get(n, 0.0)
+                    continue
+                lb, ub = boxes.get(n, (None, None))
+                if rng.random() < 0.25:
+                    pt[n] = rng.uniform(-2, 2)
+                elif lb is not None and ub is not None:
+                    pt[n] = lb + (ub - lb) * rng.uniform(0.05, 0.95)
+                elif lb is not None:
+                    pt[n] = lb + rng.uniform(0.05, 2)
+                elif ub is not None:
+                    pt[n] = ub - rng.uniform(0.05, 2)
+                else:
+                    pt[n] = rng.uniform(-2, 2)
             xs = np.array([pt[n] for n in cols])
             ok_p = True
             if call.get("A_ub") is not None:
@@ -373,8 +396,8 @@ def replay(payload):
                 v = float(v)
                 margin = min(margin, abs(v))
                 ok_u &= (v <= 0) if sense == "<=" else (abs(v) <= 1e-12)
-            for n in cols:
-                lb, ub = LM.declared_bounds(model, n, pt)
+            for n in mentioned:
+                lb, ub = boxes[n]
                 if lb is not None:
                     ok_u &= pt[n] >= lb
                     margin = min(margin, abs(pt[n] - lb))
